@@ -164,6 +164,20 @@ def pair_case(draw, fname, family):
     s1 = draw(prim_spec(k1, lattice))
     s2 = draw(prim_spec(k2, lattice))
     labels = [family]
+    if family == "planar":
+        # both primitives axis-aligned up to ONE generic rotation about a
+        # coordinate axis: feature directions with exactly one zero component
+        # in the other primitive's frame (e.g. a line parallel to one pair of
+        # box faces only)
+        P1 = np.array(draw(atoms.rot_signed_perm))
+        P2 = np.array(draw(atoms.rot_signed_perm))
+        th = draw(st.floats(0.05, 1.5, allow_nan=False, width=64))
+        Rk = atoms.axis_angle(draw(st.integers(0, 2)), th)
+        which = draw(st.integers(0, 1))
+        s1 = _with_rotation(s1, P1.dot(Rk) if which == 0 else P1)
+        s2 = _with_rotation(s2, P2 if which == 0 else P2.dot(Rk))
+        family = draw(st.sampled_from(["free", "inside", "touch"]))
+        labels.append("as:" + family)
     if family == "shared" or (family in ("touch", "inside") and draw(st.booleans())):
         # second primitive gets the first one's rotation times a signed
         # permutation: exactly parallel / perpendicular / coplanar features
@@ -237,6 +251,17 @@ def _with_rotation(s, R):
         s["d"] = R[:, 2].tolist()
     elif k == "plane":
         s["n"] = R[:, 2].tolist()
+    elif k == "triangle":
+        V = np.array(s["V"], dtype=float)
+        c = V.mean(axis=0)
+        # express the triangle in the new frame: keep its in-plane shape
+        e0 = V[1] - V[0]
+        n = np.cross(e0, V[2] - V[0])
+        u = e0 / np.linalg.norm(e0)
+        w = n / np.linalg.norm(n)
+        v = np.cross(w, u)
+        L = (V - c).dot(np.column_stack([u, v, w]))
+        s["V"] = (c + L.dot(R.T)).tolist()
     elif k == "segment":
         a, b = np.array(s["a"]), np.array(s["b"])
         c, l = 0.5 * (a + b), np.linalg.norm(b - a)
